@@ -1277,3 +1277,49 @@ Proof.
   - rewrite <- (basis_reduction_sound_lemma NP fuel R S0 Hwf Hr). exact H.
   - rewrite (basis_reduction_sound_lemma NP fuel R S0 Hwf Hr). exact H.
 Qed.
+
+(* ================================================================== the positive answer of the belief search *)
+Lemma reach_none K P insts k z : reachn (bsuccs K P insts) k None z -> z = None.
+Proof. intros H. inversion H; subst; [reflexivity|]. simpl in *. contradiction. Qed.
+
+Lemma reach_plan K P insts k x y : reachn (bsuccs K P insts) k x y ->
+  forall b bg bs, x = Some b -> y = Some bg -> Forall2 (frel K) b bs ->
+  exists pi bs', length pi = k /\ plan_over insts pi /\ brun P bs pi = Some bs' /\ Forall2 (frel K) bg bs'.
+Proof.
+  induction 1 as [x|k x y1 z Hy1 Hr IH]; intros b bg bs Hx Hy Hrel.
+  - subst. inversion Hy; subst. exists [], bs. split; [reflexivity|]. split; [constructor|]. split; [reflexivity | exact Hrel].
+  - subst. simpl in Hy1. apply in_flat_map in Hy1. destruct Hy1 as [st [Hst Hy1]].
+    unfold bsucc1 in Hy1. destruct (lookup_action P (fst st)) as [a|] eqn:Ea; [|destruct Hy1].
+    pose proof (fmap_step_sim K P a (snd st) b bs Hrel) as Hx.
+    destruct (fmap_step K P a (snd st) b) as [| |b']; simpl in Hy1.
+    + destruct Hy1 as [<-|[]]. apply reach_none in Hr. discriminate.
+    + destruct Hy1.
+    + destruct Hy1 as [<-|[]]. destruct Hx as [bs1 [E1 Hrel1]].
+      destruct (IH b' bg bs1 eq_refl eq_refl Hrel1) as [pi [bs' [Hlen [Hover [Hrun Hrel']]]]].
+      exists (st :: pi), bs'. split; [simpl; lia|]. split; [constructor; assumption|]. split; [|exact Hrel'].
+      simpl. unfold bstep. rewrite (map_opt_sstep P st a bs Ea), E1. exact Hrun.
+Qed.
+
+(* when the search answers "yes" there is a conformant plan over the instances of length <= n *)
+Theorem exists_conformant_plan_sound K P insts inits n :
+  exists_conformant_plan K P insts inits n = Some true ->
+  exists pi, plan_over insts pi /\ length pi <= n /\ conformant_check P (map fst_of inits) pi = true.
+Proof.
+  unfold exists_conformant_plan. intros H.
+  destruct (forallb (keys_in K) inits) eqn:Eg; simpl in H; [|discriminate].
+  destruct (existsb is_none (belief_nodes K P insts inits n)); [discriminate|].
+  injection H as Hex. apply existsb_exists in Hex. destruct Hex as [y [Hin Hg]].
+  destruct y as [bg|]; [|discriminate].
+  unfold belief_nodes in Hin.
+  set (b0 := map (fun l => tab K (fst_of l)) inits) in *.
+  assert (Hr : exists k, k <= n /\ reachn (bsuccs K P insts) k (Some b0) (Some bg)).
+  { destruct (bfs_sound bnode_eqb bnode_eqb_eq _ n [Some b0] [Some b0] (Some bg) (incl_refl _) Hin)
+      as [[<-|[]]|[x [k [[<-|[]] [Hk Hr]]]]].
+    - exists 0. split; [lia | constructor].
+    - exists k. auto. }
+  destruct Hr as [k [Hk Hr]].
+  destruct (reach_plan K P insts k _ _ Hr b0 bg (map fst_of inits) eq_refl eq_refl (init_rel K inits Eg))
+    as [pi [bs' [Hlen [Hover [Hrun Hrel]]]]].
+  exists pi. split; [exact Hover|]. split; [lia|].
+  unfold conformant_check. rewrite Hrun, <- (bgoal_rel K P bg bs' Hrel). exact Hg.
+Qed.
